@@ -16,14 +16,21 @@ type File struct {
 	dataMU   sync.RWMutex
 }
 
-// NewFile create new File instance
+// NewFile create new File instance (the file contains a copy of the data)
 func NewFile(name string, filemode os.FileMode, t time.Time, data []byte) *File {
 	return &File{
 		name:     name,
 		filemode: filemode,
 		time:     t,
-		data:     data,
+		data:     copyBytes(data),
 	}
+}
+
+// copyBytes return new slice with the same content
+func copyBytes(data []byte) []byte {
+	result := make([]byte, len(data))
+	copy(result, data)
+	return result
 }
 
 // Name is a file name
@@ -56,17 +63,17 @@ func (f *File) IsDir() bool {
 	return false
 }
 
-// getData return file data bytes
+// getData return a copy of file data bytes
 func (f *File) getData() []byte {
 	f.dataMU.RLock()
 	defer f.dataMU.RUnlock()
-	return f.data
+	return copyBytes(f.data)
 }
 
-// setData set new file data bytes
+// setData set new file data bytes (the file contains a copy of the data)
 func (f *File) setData(data []byte) {
 	f.dataMU.Lock()
 	defer f.dataMU.Unlock()
 	f.time = time.Now()
-	f.data = data
+	f.data = copyBytes(data)
 }
